@@ -122,10 +122,12 @@ pub fn hash_h() {
     let (ka, kb) = (oracle::hash_key(&a), oracle::hash_key(&b));
     assert!(!ra.overflow && !rb.overflow && !ka.1.overflow && !kb.1.overflow, "recorder capacity");
     assert!((ra == rb) == (ka == kb), "contract: fed data equal <=> same variant and same compared-field data");
+    assert!(ra.framed(&ka.1), "contract: the non-ignored fields are fed in declaration order (whatever marks the variant comes before or after them)");
     kani::cover!(true);
 }
 """)
-    u.kani_obls["hash_h"] = ("%s/%s/Hash::hash/contract" % (prop, P.pid), "rec(a) == rec(b) <=> (variant, compared-field data)(a) == (..)(b)")
+    u.kani_obls["hash_h"] = ("%s/%s/Hash::hash/contract" % (prop, P.pid), "rec(a) == rec(b) <=> (variant, compared-field data)(a) == (..)(b); rec(a) begins or ends with the fields' data in declaration order")
     u.kani_bounded["hash_h"] = None
     u.replay.append('let a = oracle::mk(s); let b = oracle::mk(s);\n'
-                    '    chk(out, "hash data of a == hash data of b", oracle::hash_rec(&a) == oracle::hash_rec(&b), oracle::hash_key(&a) == oracle::hash_key(&b));')
+                    '    chk(out, "hash data of a == hash data of b", oracle::hash_rec(&a) == oracle::hash_rec(&b), oracle::hash_key(&a) == oracle::hash_key(&b));\n'
+                    '    chk(out, "fields fed in declaration order", oracle::hash_rec(&a).framed(&oracle::hash_key(&a).1), true);')
